@@ -207,7 +207,7 @@ class DocGen:
                 width = r.choice([8, 16, 24, 32, 64])
             else:
                 width = r.choice([1, 2, 3, 4, 5, 7, 8, 9, 12, 13, 16, 17, 24, 32, 33] + ([48, 64, 65, 70] if self.p.wide_ints else []))
-        encoding = r.choice(["unsigned", "unsigned", "signed", "twosComplement"])
+        encoding = r.choice(["unsigned", "unsigned", "unsigned", "signed", "twosComplement", "twosCompliment"])
         e = ir.IntEnc(width, encoding, little)
         if calibrate and width <= 32:
             d, c = self.calibrators(e, cx, self_name)
@@ -335,8 +335,8 @@ class DocGen:
         # time types: numeric encoding + optional scale/offset
         enc = self.int_enc(cx, pname, width=r.choice([8, 16, 32]), calibrate=False) if r.random() < 0.7 else \
             ir.FloatEnc(r.choice([32, 64]), "IEEE754", False)
-        return ir.PType(tname, kind, enc, r.choice([None, "s", "us"]), scale=r.choice([None, None, 0.001, 2.0]),
-                        offset=r.choice([None, None, 1000.0, -0.5]), epoch=r.choice([None, "TAI", "2000-01-01T00:00:00", "GPS"]),
+        return ir.PType(tname, kind, enc, r.choice([None, "s", "us"]), scale=r.choice([None, None, 0.001, 2.0, 1.0]),
+                        offset=r.choice([None, None, 1000.0, -0.5, 0.0]), epoch=r.choice([None, "TAI", "2000-01-01T00:00:00", "GPS"]),
                         offset_from=None)
 
     def add_param(self, cx: Ctxt, stem="P", kind=None, steering=False):
